@@ -49,6 +49,12 @@ def rowappend_cases(rng, n):
                     row[q] = ["i", 7]
         if rng.random() < 0.15:
             row = row[:-1] if rng.random() < 0.5 else row + [["i", 0]]          # wrong width: must be refused
+        if w >= 2 and rng.random() < 0.12:
+            # a BLOCK whose entries extend the columns by different amounts (a list of two cells next to a list of one, a tuple
+            # next to a scalar): whatever << makes of it, it is not a table with columns of different lengths
+            cs.append({"op": "rowappend", "cols": cols, "row": row, "block": [rng.choice([1, 2, 2, 3]) for _ in range(w - 1)] + [rng.choice([0, 1])],
+                       "rowform": rng.choice(["list", "tuple"])})
+            continue
         cs.append({"op": "rowappend", "cols": cols, "row": row,
                    # the row as a list, a tuple, or a one-shot iterable (a generator, an iterator): the same cells
                    "rowform": rng.choice(["list", "list", "tuple", "gen", "iter"])})
@@ -174,6 +180,16 @@ def _observe_rowappend(case):
             except Exception as e:                           # noqa: BLE001
                 got[label] = ["raises", type(e).__name__]
         return {"rowindex": i, "want": want, "got": got, "n": len(cols[0])}
+    if case.get("block"):
+        blk = [([x] * k if k else x) for x, k in zip(row, case["block"])]       # k cells for this column (0: the bare scalar)
+        blk = tuple(tuple(e) if isinstance(e, list) else e for e in blk) if case.get("rowform") == "tuple" else blk
+        try:
+            out = t << blk
+        except Exception as e:                               # noqa: BLE001
+            return {"blockexc": type(e).__name__}
+        if isinstance(out, Table):
+            return {"block_table": [len(c) for c in out.cols()], "len": len(out), "shape": [int(x) for x in out.shape]}
+        return {"block_table": None}
     before = [[repr(x) for x in r] for r in t] if cols and cols[0] else []
     form = case.get("rowform", "list")
     given = {"list": lambda: list(row), "tuple": lambda: tuple(row), "gen": lambda: (x for x in row),
@@ -266,6 +282,12 @@ def oracle(case, obs):
         return None
     if "broken" in obs:
         return f"rowappend-observer: {obs['broken']}"
+    if case.get("block"):
+        lens = obs.get("block_table")
+        if lens and (len(set(lens)) > 1 or obs["len"] != lens[0]):
+            return (f"rowappend-ragged-accepted: t << <a block extending the columns of {case['cols']} by {case['block']} cells (0 = a "
+                    f"bare scalar)> is a Table with column lengths {lens}, len {obs['len']}, shape {obs['shape']}")
+        return None
     what = f"t << {case['row']} ({case.get('rowform', 'list')}) on columns {case['cols']}"
     if not obs["width_ok"]:
         if "exc" not in obs and obs.get("is_table"):
